@@ -97,10 +97,34 @@ Fixpoint approx_sym (tol : Q) (l r : list pyval) : bool :=
   | _, _ => false
   end.
 
+(* overlap-add sums of the observed periodic window: | sum_k w[n + k*hop] - C | <= tol for every n < hop *)
+Fixpoint sumq (l : list (option Q)) : option Q :=
+  match l with
+  | [] => Some 0%Q
+  | Some x :: r => match sumq r with Some s => Some (x + s)%Q | None => None end
+  | None :: _ => None
+  end.
+Definition cola_ok (tol : Q) (w : list pyval) (hop m : nat) (C : Q) : bool :=
+  forallb (fun n =>
+    match sumq (map (fun k => match nth_error w (n + k * hop) with Some v => pyval_Q v | None => None end) (seq 0 m)) with
+    | Some s => Qle_bool (Qabs (s - C)) tol
+    | None => false
+    end) (seq 0 hop).
+Definition cola_checks (sname : string) (aq : option Q) (size : Z) (w : list pyval) : bool :=
+  forallb (fun m =>
+    if (0 <? size)%Z && (size mod m =? 0)%Z then
+      match cola_const sname m aq with
+      | Some C => cola_ok (size # Pos.pow 2 45) w (Z.to_nat (size / m)) (Z.to_nat m) C
+      | None => true
+      end
+    else true) [2; 3; 4]%Z.
+
 (* What the property text demands of the three observed lists.  The range / symmetry / no-exception demands are
    made only for alpha inside the stated domain (Spec.alpha_ok); the structural ones (lengths, prefix, wsymm(1))
    whenever lists were returned.  Symmetry of the float list is demanded up to size * 2^-45 (2^-20 for a cos
-   window with 0 < alpha < 1, where x ** alpha amplifies the rounding of sin(pi) near 0): NEVER bitwise. *)
+   window with 0 < alpha < 1, where x ** alpha amplifies the rounding of sin(pi) near 0): NEVER bitwise.
+   Overlap-add: the hop-shifted sums of the observed periodic window are the constant of Spec.cola_const up to
+   size * 2^-45, for hop = size/2 and size/4 (rect: also size/3). *)
 Definition holds_win (c : wcase) : bool :=
   match primary_of (c_name c) with
   | None => true                                   (* not a strategy name: nothing is promised *)
@@ -109,7 +133,10 @@ Definition holds_win (c : wcase) : bool :=
       let aq := alpha_Q c e in
       let dom := match w_default e with
                  | None => match c_alpha c with None => true | Some _ => false end
-                 | Some _ => match aq with Some a => alpha_ok sname a | None => false end
+                 | Some _ => match c_alpha c with
+                             | None => true     (* the default alpha is promised to be inside the domain *)
+                             | Some _ => match aq with Some a => alpha_ok sname a | None => false end
+                             end
                  end in
       let n := Z.to_nat (c_size c) in
       match c_win c, c_sym c, c_one c with
@@ -119,7 +146,8 @@ Definition holds_win (c : wcase) : bool :=
           list_eqb pyval_eqb o [PFlt 1%float] &&
           (negb dom ||
            (forallb in01 w &&
-            approx_sym (sym_tol sname aq (c_size c + 1)) s (rev s)))
+            approx_sym (sym_tol sname aq (c_size c + 1)) s (rev s) &&
+            cola_checks sname aq (c_size c) w))
       | _, _, _ => negb dom || (c_size c <? 1)%Z
       end
   end.
